@@ -199,6 +199,15 @@ let register (reg : string -> (Sx.t list -> Sx.t) -> unit) : unit =
             | v -> raise (Bad ("bad rreq " ^ to_string v))) in
         wr_str (Redirect.get_redirect up (rd_str pp) (rd_list rd_str wl) q)
       | _ -> raise (Bad "get_redirect arity"));
+  reg "oauth_redirect_uri" (function
+      | [rel; cu; ch; cp; sec; rq] ->
+        let q = (match rq with
+            | L [rd; xa; prox; host; scheme; uri; xfh; xfp; xfu] ->
+              { Redirect.q_rd = rd_str rd; q_xauth = rd_str xa; q_proxied = rd_bool prox; q_host = rd_str host;
+                q_scheme = rd_str scheme; q_uri = rd_str uri; q_xf_host = rd_str xfh; q_xf_proto = rd_str xfp; q_xf_uri = rd_str xfu }
+            | v -> raise (Bad ("bad rreq " ^ to_string v))) in
+        wr_str (Redirect.oauth_redirect_uri (rd_bool rel) (rd_str cu) (rd_bool ch) (rd_str cp) (rd_bool sec) q)
+      | _ -> raise (Bad "oauth_redirect_uri arity"));
   reg "split_host_port" (function
       | [x] -> wr_opt (wr_pair wr_str wr_str) (NetAddr.split_host_port (rd_str x))
       | _ -> raise (Bad "split_host_port arity"));
